@@ -73,7 +73,11 @@ class LeafNode(TreeNode):
 
     def edits(self, node: TreeNode) -> Edit:
         if isinstance(node, LeafNode):
-            return Match(self, node, levenshtein_distance(str(self.object), str(node.object)))
+            cost = levenshtein_distance(str(self.object), str(node.object))
+            if cost == 0 and self != node:
+                # e.g., the integer 1 and the string "1": the string representations coincide but the values differ
+                cost = 1
+            return Match(self, node, cost)
         elif isinstance(node, ContainerNode):
             return Replace(self, node)
 
